@@ -76,7 +76,7 @@ def _almost_affine():
 
 
 SINGULAR_TABLES = ('dup(x,x,y)', 'affine(x,3x+1)', 'dup-after-unrelated(a,b,c,b)', 'anti(x,-x,y)', 'two-rows', 'three-rows',
-                   'almost-affine(x,3x+1+1e-6*noise,y)')
+                   'almost-affine(x,3x+1+1e-6*noise,y)', 'one-const', 'all-but-one-const')
 
 
 def _singular(r, case):
@@ -134,6 +134,11 @@ def _singular(r, case):
     pos = p > 0
     if p.shape != lp.shape or not np.allclose(np.log(p[pos]), lp[pos], rtol=1e-9, atol=1e-9):
         r.violation('C13:logpdf', f'{tag}: log_probability_density != log(probability_density)', case=case)
+    dead = np.isfinite(lp_ref) & (lp_ref < -800)          # the MVN density with model.correlation is below every float there
+    if dead.any() and np.any(p[dead] > 1e-300):
+        i = int(np.nonzero(dead & (p > 1e-300))[0][0])
+        r.violation('C13:singular:pdf-value', f'{tag}: probability_density of training row {Q[i].tolist()} = {p[i]!r} but the MVN '
+                    f'density with model.correlation is exp({lp_ref[i]!r}) = 0', case=case)
     if C.shape[0] == 2:
         np.random.seed(7)
         try:
